@@ -174,10 +174,14 @@ Definition in_view (v : bounds) (x y : Z) : bool :=
   (bx0 v <=? x) && (x <=? bx1 v) && (by0 v <=? y) && (y <=? by1 v).
 
 (* ---- _flood_fill, physical seed (x, y) *)
-Definition flood_fill (fuel : nat) (v : bounds) (m : bitmap) (x y : Z) (p : pat) (border : Z) : res bitmap :=
+Definition flood_fill_pat (fuel : nat) (v : bounds) (m : bitmap) (x y : Z) (p : pat) (border : Z) : res bitmap :=
   if negb (in_view v x y) then Ok m
   else if pix m x y =? border then Ok m
   else flood_loop fuel v p border m [(x, x, y, 0)].
+
+(* the solid fill (pattern is None) with fill attribute `fill` *)
+Definition flood_fill (fuel : nat) (v : bounds) (m : bitmap) (x y fill border : Z) : res bitmap :=
+  flood_fill_pat fuel v m x y (solid_pat fill) border.
 
 (* fuel shown sufficient in proofs/Flood_proofs.v: (width+2)*(height+2)*2 iterations *)
 Definition paint_fuel (v : bounds) : nat :=
@@ -213,7 +217,7 @@ Definition paint (text_mode : bool) (num_attr fg : Z) (v : bounds) (m : bitmap)
                                 else if (0 <=? bv) && (bv <=? 255) then Ok bv else Err 5
                    end;
   if negb (int16_ok x && int16_ok y) then Err 6 else
-  flood_fill (paint_fuel v) v m x y (solid_pat (attr_index num_attr fg fill_idx)) (attr_index num_attr fg border_idx).
+  flood_fill (paint_fuel v) v m x y (attr_index num_attr fg fill_idx) (attr_index num_attr fg border_idx).
 
 (* fuel used for tiled fills (no bound is proved for tiles with all-zero rows; see proofs) *)
 Definition tile_fuel (v : bounds) : nat := (paint_fuel v * 4)%nat.
@@ -241,7 +245,7 @@ Definition paint_tile (text_mode : bool) (num_attr fg : Z) (v : bounds) (m : bit
                    end;
   if match bg with Some r => bg_illegal tile r | None => false end then Err 5 else
   if negb (int16_ok x && int16_ok y) then Err 6 else
-  flood_fill (tile_fuel v) v m x y (mkPat false tile bg) (attr_index num_attr fg border_idx).
+  flood_fill_pat (tile_fuel v) v m x y (mkPat false tile bg) (attr_index num_attr fg border_idx).
 
 (* canonical output for the correspondence harness: 0 :: all pixels of the bitmap, row by row *)
 Definition enc_paint (r : res bitmap) : list Z := enc_res (rmap (fun m => concat (rows m)) r).
